@@ -51,11 +51,18 @@ FILE_NAMES = ["m.mdl", 'a"b.mdl', "c{d|e}.mdl", "x<y>.mdl", "back\\slash.mdl", "
 
 
 class ModelGen:
-    def __init__(self, r):
+    def __init__(self, r, dup=0.0):
         self.r = r
         self.values = []
+        self.dup = dup      # chance to reuse an earlier value: distinct objects with equal attribute values
 
     def val(self):
+        if self.values and self.r.chance(self.dup):
+            return '"@%d"' % self.r.below(len(self.values))
+        self.values.append(gen_value(self.r))
+        return '"@%d"' % (len(self.values) - 1)
+
+    def fresh(self):
         self.values.append(gen_value(self.r))
         return '"@%d"' % (len(self.values) - 1)
 
@@ -65,7 +72,7 @@ class ModelGen:
         names = []
         out = []
         for i in range(n):
-            nm = self.val()
+            nm = self.fresh()        # reference targets: the placeholder names must stay unique
             names.append(nm)
             parts = ["thing", nm]
             if r.chance(0.4):
@@ -136,17 +143,32 @@ class ModelGen:
         return "\n".join(out)
 
 
+# rules that may get a user class (classes=[...]); the first is the root rule
+USER_RULES = {1: ["Model", "Thing", "Sub"], 2: ["Doc", "Section", "Para"], 3: ["Cfg", "E", "W"]}
+SHAPES = [("value", 4), ("const", 2), ("unhashable", 2), ("falsy_len", 1), ("falsy_bool", 1), ("strrepr", 1), ("plain", 1)]
+
+
 def gen_model_case(r, i):
     which = r.weighted([(1, 5), (2, 2), (3, 3)])
     mode = r.weighted([("single", 5), ("repo", 3), ("generator", 2), ("globalrepo", 1)])
     nfiles = r.range(1, 2) if mode in ("repo", "globalrepo") else 1
-    g = ModelGen(r)
+    classes = []
+    if r.chance(0.4):
+        # user classes whose __eq__/__hash__/__bool__/__str__ differ from object's: the export must go by identity
+        rules = USER_RULES[which]
+        for rule in r.sample(rules, r.range(1, len(rules))):
+            shape = r.weighted(SHAPES)      # the root rule too: a falsy root model must still be exported
+            classes.append({"rule": rule, "shape": shape})
+    g = ModelGen(r, dup=0.5 if classes else 0.0)
     files = []
     names = r.shuffle(FILE_NAMES)
     for k in range(nfiles):
         text = {1: g.g1, 2: g.g2, 3: g.g3}[which]()
         files.append({"name": names[k] if (mode != "single" or r.chance(0.5)) else "m.mdl", "text": text})
-    return {"kind": "model", "grammar": {1: G1, 2: G2, 3: G3}[which], "files": files, "values": g.values, "mode": mode}
+    case = {"kind": "model", "grammar": {1: G1, 2: G2, 3: G3}[which], "files": files, "values": g.values, "mode": mode}
+    if classes:
+        case["classes"] = classes
+    return case
 
 
 # ------------------------------------------------------------------ metamodel cases
@@ -419,13 +441,20 @@ def run(chk):
     for ch, os_ in zip(chunks, outs):
         for c, o in zip(ch, os_):
             kind = c["kind"] + ":" + c.get("mode", "")
-            if c["kind"] == "model" and c.get("mode") in ("single", "generator") and not o.get("exc") and all(
+            if c["kind"] == "model" and c.get("mode") in ("single", "generator") and not o.get("exc") and not o.get("build_exc") and all(
                     x["t"] != "obj" or x["id"] >= 0 for ob in o["objects"] for a in ob["attrs"] for x in (a["val"]["v"] if a["val"]["t"] == "list" else [a["val"]])):
                 if len(walk) < (400 if thorough else 60):
                     walk.append((c, o))
             chk.stat(kind)
             hostile = any(any(ch_ in v for ch_ in '"\\{}|<>\n') for v in c.get("values", [])) or c["kind"] == "metamodel"
             chk.count(json.dumps(c, sort_keys=True), nontrivial=hostile)
+            if o.get("build_exc"):
+                chk.stat("model not built")
+                if not c.get("classes"):     # without user classes every generated model must build
+                    disagreements.append({"case": c, "impl": o, "model": "the generator produced a model that textX does not build"})
+                continue
+            for uc in c.get("classes", []):
+                chk.stat("user class: " + uc["shape"])
             if o.get("exc"):
                 if c["kind"] == "metamodel" and o["exc"].startswith(("TextXSemanticError", "TextXSyntaxError")):
                     chk.stat("metamodel rejected by textX")     # the generated grammar is not a valid one: no export to look at
